@@ -61,6 +61,10 @@ TERMS = [
 
 def jobs(tier):
     out = [(c, tier) for c in MESH_CLASSES]
+    # integer-dtype face positions (a legal input): nothing the operators or the volumes read may be truncated on the way
+    from ..model import DIM as _DIM
+    for c in MESH_CLASSES:
+        out.append((c, tier, {1: (3,), 2: (3, 2), 3: (2, 3, 2)}[_DIM[c]], 'int'))
     if tier != 'quick':
         from ..model import DIM
         for c in MESH_CLASSES:
@@ -78,8 +82,9 @@ def _rows(w, kind, obj, P):
 def job(args):
     cls, tier = args[0], args[1]
     sizes = args[2] if len(args) > 2 else None
+    int_data = len(args) > 3 and args[3] == 'int'
     sm = SourceModel()
-    w = World(sm, cls, sizes=sizes)
+    w = World(sm, cls, sizes=sizes, int_data=int_data)
     obs = []
     samples = []
     units = set()
